@@ -110,6 +110,7 @@ def inverse_circuit(tableau):
     pivot = [0, 0]
     n_qubits = tableau.n_qubits
     tableau = canonical_form(tableau)
+    canonical_tableau = tableau.copy()
 
     # Hadamard block
     for j in range(n_qubits):
@@ -161,10 +162,78 @@ def inverse_circuit(tableau):
             if tableau.x_matrix[k, j] == 0 and tableau.z_matrix[k, j] == 1:
                 tableau = tab_row_sum(tableau, j, k)
 
+    if np.any(tableau.x_matrix) or not np.array_equal(
+        tableau.z_matrix, np.eye(n_qubits)
+    ):
+        # the pivot of some column was used up by an earlier column, start again
+        tableau, circuit_list = _inverse_circuit_graph_form(canonical_tableau)
+
     # Eliminate phase
     for i in np.nonzero(tableau.phase)[0]:
         tableau = transform.x_gate(tableau, i)
         circuit_list.append(("X", int(i)))
+    return tableau, circuit_list
+
+
+def _inverse_circuit_graph_form(tableau):
+    """
+    Find gates that transform the input stabilizer tableau to the tableau of :math:`|0\\rangle^{\\otimes n}` state
+    up to the signs, going through a graph state: Hadamard gates make the X block invertible, row operations
+    turn it into the identity, phase and CZ gates remove the Z block.
+
+    :param tableau: the input tableau in the canonical form
+    :type tableau: StabilizerTableau
+    :return: the tableau that is converted to the basis state up to the signs, list of gate instructions
+    :rtype: StabilizerTableau, list[tuple]
+    """
+    circuit_list = []
+    n_qubits = tableau.n_qubits
+    # columns of the leading X/Y of the generators in the X block
+    x_pivots = [
+        int(np.nonzero(tableau.x_matrix[i])[0][0])
+        for i in range(n_qubits)
+        if np.any(tableau.x_matrix[i])
+    ]
+    # qubits with a generator Z of their own
+    z_only = [
+        int(np.nonzero(tableau.z_matrix[i])[0][0])
+        for i in range(n_qubits)
+        if not np.any(tableau.x_matrix[i]) and np.sum(tableau.z_matrix[i]) == 1
+    ]
+    for j in range(n_qubits):
+        if j not in x_pivots and j not in z_only:
+            circuit_list.append(("H", j))
+            tableau = transform.hadamard_gate(tableau, j)
+
+    # the X block is invertible on the qubits outside z_only now
+    for j in range(n_qubits):
+        for k in range(j, n_qubits):
+            if tableau.x_matrix[k, j] == 1 or (
+                j in z_only
+                and tableau.z_matrix[k, j] == 1
+                and not np.any(tableau.x_matrix[k])
+            ):
+                tableau = tab_row_swap(tableau, j, k)
+                break
+        for row_m in range(n_qubits):
+            if tableau.x_matrix[row_m, j] == 1 and row_m != j:
+                tableau = tab_row_sum(tableau, j, row_m)
+
+    for j in range(n_qubits):
+        if tableau.x_matrix[j, j] == 1 and tableau.z_matrix[j, j] == 1:
+            circuit_list.append(("P", j))
+            tableau = transform.phase_gate(tableau, j)
+
+    for j in range(n_qubits):
+        for k in range(j + 1, n_qubits):
+            if tableau.z_matrix[j, k] == 1:
+                circuit_list.append(("CZ", j, k))
+                tableau = transform.control_z_gate(tableau, j, k)
+
+    for j in range(n_qubits):
+        if tableau.x_matrix[j, j] == 1:
+            circuit_list.append(("H", j))
+            tableau = transform.hadamard_gate(tableau, j)
     return tableau, circuit_list
 
 
